@@ -27,17 +27,30 @@ RULE = (
 )
 EXHAUSTIVE = {"quick": False, "thorough": True}
 ASSUMPTIONS = [
+    "end-to-end shards: a real gunicorn/uvicorn server process tree started from the tree under test (vf/e2e_launch.py: the repository's run_with_gunicorn / run_with_uvicorn; the SQL schema is made with the repository's metadata.create_all because its alembic env.py does not run with the installed SQLAlchemy; the notifier's fixed TCP port 6000 is replaced by a free port), spoken to over loopback TCP with the websockets client; real time, real sleeps",
     "the stdlib json module in strict mode is the reference parser for 'well-formed'",
     "for non-string subscription ids only well-formedness of the frames is required",
     "LMDB backend over /verif/shim; SQL = SQLite; HTTP path = ViewEventResource.on_get rendered by falcon's media handler",
 ]
 MIN_NONTRIVIAL = {"quick": 600, "thorough": 1500}
-REQUIRED_COUNTERS = ["frames_checked", "served.stored", "served.live", "served.http", "subids_checked", "rate_limited_commands"]
+REQUIRED_COUNTERS = ["e2e.e2e_frames_checked", "e2e.e2e_verbatim_checked", "e2e.e2e_http_gets", "frames_checked", "served.stored", "served.live", "served.http", "subids_checked", "rate_limited_commands"]
 SHARD_TIMEOUT = {"quick": 500, "thorough": 3000}
 SCALARS = [(0, 0xD800), (0xE000, 0x110000)]
 
 
 def plan(tier, seed):
+    return _plan(tier, seed) + e2e_plan(tier, seed)
+
+
+def e2e_plan(tier, seed):
+    """shards on a REAL server process tree (vf/e2e.py)"""
+    out = []
+    for i in range(1 if tier == "quick" else 6):
+        out += [{"mode": "e2e", "e2e": "wire", "backend": b, "seed": seed * 7919 + i, "nevents": 60 if tier == "quick" else 200} for b in ("sql", "lmdb")]
+    return out
+
+
+def _plan(tier, seed):
     shards = []
     for backend in ("sql", "lmdb"):
         shards.append({"backend": backend, "mode": "subids", "case_seed": seed})
@@ -412,6 +425,10 @@ async def run_rate_limited(backend, counters):
 
 
 def run_shard(spec):
+    if spec.get("mode") == "e2e":
+        from .. import e2e_cases
+
+        return e2e_cases.run_e2e_shard(ID, spec)
     counters = {}
     backend, mode = spec["backend"], spec["mode"]
     key = ref.key_from_seed("c04")
@@ -441,6 +458,10 @@ def run_shard(spec):
 
 
 def replay(rp, spec):
+    if rp.get("mode") == "e2e":
+        from .. import e2e_cases
+
+        return e2e_cases.run_e2e_shard(ID, rp)
     counters = {}
     if rp["mode"] == "ratelimited":
         viols, nt, sm = R.run(run_rate_limited, rp["backend"], counters)
